@@ -19,6 +19,7 @@ fn malformed_corpus() -> Vec<Vec<u8>> {
         b"{\"ami\":\"\"}".to_vec(), b"{\"\":\"x\"}".to_vec(), b"{\"ami\":\"\",\"tumi\":\"\xe0\xa6\xa4\xe0\xa7\x81\xe0\xa6\xae\xe0\xa6\xbf\"}".to_vec(),
         b"{\"ami\":\"x\",}".to_vec(), b"{\"ami\" \"x\"}".to_vec(), b"{'ami':'x'}".to_vec(), b"\xef\xbb\xbf{}".to_vec(), b"\xff\xfe\x00".to_vec(), b"{\"ami\":\"\\ud800\"}".to_vec(),
         b"{\"ami\":\"x\"}{\"b\":\"y\"}".to_vec(), b"   ".to_vec(), b"\n".to_vec(), b"{\"a\":\"b\"".to_vec(), b"{\"a\":\"b".to_vec(), b"{\"a\":".to_vec(), b"{\"a\"".to_vec(),
+        b"{\"ami\":\"a\\u0000mi\"}".to_vec(), b"{\"ami\":\"\\u0000\",\"desh\":\"d\\u0000\"}".to_vec(),
         b"{\"ami\":\"\",\"desh\":\"\",\"sesh\":\"\"}".to_vec(), b"true".to_vec(), b"{\"a\":true}".to_vec(), b"{\"a\":\"b\",\"a\":\"c\"}".to_vec(),
     ];
     let big = format!("{{{}}}", (0..300).map(|i| format!("\"k{}\":\"v{}\"", i, i)).collect::<Vec<_>>().join(","));
@@ -45,10 +46,40 @@ pub fn c10(tier: &str, seed: u64, meta: &str) -> Report {
     let prefixes = &prefixes;
     let n_corpus = corpus.len() as u64;
     // cases: which file x content ; plus directory faults
-    let total = 2 * (n_prefix + n_corpus) + if thorough { 400 } else { 60 };
+    let total0 = 2 * (n_prefix + n_corpus) + if thorough { 400 } else { 60 };
+    let total = total0 + 8;
     let (store_bytes, corpus) = (&store_bytes, &corpus);
     let mut rep = par_items(total, |_| Worker2::new(pr.data.clone()), |w, i, rep| {
         let mut rng = Rng::new(seed ^ i.wrapping_mul(0xC10));
+        if i >= total0 {
+            // the user-data directory is there (with an auto-correct list) when the context is built and cannot be
+            // opened later (a regular file sits at its path / it is gone): update_engine treats the list as absent
+            let bits = [2u32, 3, 10, 11][(i % 4) as usize];
+            let mut o = Opts::phonetic(&std::path::PathBuf::from("/nonexistent"));
+            set_pbits(&mut o, bits);
+            let uac: Map = vec![("ami".into(), "tumi".into()), ("jhal".into(), "bhalO".into())];
+            let mut s = match Session::new(w, o.clone(), Some(&uac), None, "c10d") { Ok(s) => s, Err(e) => { rep.fail(json!({"what": "creating a context panicked", "panic": e})); return; } };
+            let mut reference = match Session::new(w, o, None, None, "c10e") { Ok(s) => s, Err(_) => return };
+            let mut evs = pr.key_events("ami", 0); evs.push(SEv::Finish);
+            feed(w, &mut s, &evs, rep, "C10");
+            let dir = s.opts.user_dir();
+            let _ = std::fs::remove_dir_all(&dir);
+            if (i - total0) / 4 == 0 { let _ = std::fs::write(&dir, b"not a directory"); }
+            feed(w, &mut s, &[SEv::Update(bits, UacEdit::Keep)], rep, "C10");
+            rep.evaluations += 1;
+            for t in ["ami", "jhal", "amir"] {
+                let mut evs = pr.key_events(t, 0); evs.push(SEv::Finish);
+                let a = feed(w, &mut s, &evs, rep, "C10");
+                let b = feed(w, &mut reference, &evs, rep, "C10");
+                if let Some((x, y)) = a.iter().zip(b.iter()).find(|(x, y)| x.imp != y.imp) {
+                    rep.fail(json!({"what": "the user-data directory became unreadable after the context was built; after update_engine the old auto-correct entries are still in force (not treated as absent)",
+                        "directory_now": if (i - total0) / 4 == 0 { "a regular file" } else { "removed" }, "typed": t, "option_bits": bits,
+                        "with_unreadable_directory": explain(&x.imp), "without_the_file": explain(&y.imp), "session": s.describe()}));
+                    break;
+                }
+            }
+            return;
+        }
         let k = 2 * (n_prefix + n_corpus);
         let (which, content, dir_fault): (&str, Option<Vec<u8>>, &str) = if i < k {
             let j = i / 2;
@@ -68,6 +99,30 @@ pub fn c10(tier: &str, seed: u64, meta: &str) -> Report {
             Ok(s) => s,
             Err(e) => { rep.fail(describe("creating a context panicked with a damaged or missing user file", json!({"panic": e}))); return; }
         };
+        // the same odd entries seen through the exported C functions (a front-end reads every candidate and its pre-edit
+        // text there; a panic inside an extern "C" function aborts the process, which the check reports as a crash)
+        if which == "autocorrect" && dir_fault == "ok" {
+            unsafe {
+                use crate::ffi::*;
+                let cx = riti_context_new_with_config(s.cfg.0);
+                for t in ["ami", "desh"] {
+                    for e in pr.key_events(t, 0) {
+                        if let SEv::Key(k, _, _) = e {
+                            let sg = riti_get_suggestion_for_key(cx, k, 0, 0);
+                            if !riti_suggestion_is_lonely(sg) {
+                                for ix in 0..riti_suggestion_get_length(sg) {
+                                    riti_string_free(riti_suggestion_get_suggestion(sg, ix));
+                                    riti_string_free(riti_suggestion_get_pre_edit_text(sg, ix));
+                                }
+                            } else { riti_string_free(riti_suggestion_get_pre_edit_text(sg, 0)); }
+                            riti_suggestion_free(sg);
+                        }
+                    }
+                    riti_context_finish_input_session(cx);
+                }
+                riti_context_free(cx);
+            }
+        }
         // reference: the same file absent (only when the content cannot be parsed)
         let unparsable = content.as_ref().map(|b| parse_map(b).is_none()).unwrap_or(false);
         let mut reference = if unparsable && dir_fault == "ok" { Session::new_faulty(w, o.clone(), None, None, "ok", "c10r").ok() } else { None };
@@ -154,7 +209,7 @@ pub fn c10(tier: &str, seed: u64, meta: &str) -> Report {
         rep.nontrivial_key(&format!("{} {:?} {}", which, content, dir_fault));
         if rep.samples.len() < 2 && i % 37 == 5 { rep.sample(describe("sample (no panic, behaves as if absent)", json!({"events": s.history.len()}))); }
     });
-    rep.extra.insert("rule".into(), json!(format!("fault states of the two optional user files: EVERY prefix of three stores the engine writes ({} bytes the first; keys of three lengths and long Bengali values, so that every byte offset falls inside a character in one of them; all crash points of the non-atomic save), a corpus of {} malformed / wrong-shape / empty-string documents (incl. files of 0, 1 and 2 bytes, BOM, duplicate keys, 300 entries), each as the selection store and as the user auto-correct list; a user-data directory that is missing, occupied by a regular file, or missing below a regular file so that it cannot be made (the sandbox runs as root, so permission bits cannot make a directory read-only); for the missing directory also: the directory is made later, another choice is learned, the context restarted; each followed by typing (incl. stored key + known suffix), commits, a reload with a damaged auto-correct file, a restart and an option change; reference = the same events with the file absent", store_bytes.len(), n_corpus)));
+    rep.extra.insert("rule".into(), json!(format!("fault states of the two optional user files: EVERY prefix of three stores the engine writes ({} bytes the first; keys of three lengths and long Bengali values, so that every byte offset falls inside a character in one of them; all crash points of the non-atomic save), a corpus of {} malformed / wrong-shape / empty-string documents (incl. files of 0, 1 and 2 bytes, BOM, duplicate keys, 300 entries, escaped NUL characters in values), each as the selection store and as the user auto-correct list; a user-data directory that is missing, occupied by a regular file, or missing below a regular file so that it cannot be made (the sandbox runs as root, so permission bits cannot make a directory read-only); a directory that is there when the context is built and unreadable at the next update_engine; for the missing directory also: the directory is made later, another choice is learned, the context restarted; each followed by typing (incl. stored key + known suffix), commits, a reload with a damaged auto-correct file, a restart and an option change; reference = the same events with the file absent", store_bytes.len(), n_corpus)));
     rep.extra.insert("exhaustive".into(), json!(true));
     rep
 }
@@ -370,7 +425,7 @@ pub fn c01(tier: &str, seed: u64, meta: &str) -> Report {
                 38 => SEv::Restart,
                 _ => if idle && rng.chance(1, 6) { SEv::UpdateDb(!s.opts.database) } else if idle {
                     let nb = if s.phonetic { rng.below(16) as u32 } else { rng.below(1024) as u32 };
-                    SEv::Update(nb, match rng.below(4) { 0 => UacEdit::Delete, 1 => UacEdit::Write(vec![("ami".into(), "amra".into())]), 2 => UacEdit::Raw(b"{".to_vec()), _ => UacEdit::Keep })
+                    SEv::Update(nb, match rng.below(5) { 0 => UacEdit::Delete, 1 => UacEdit::Write(vec![("ami".into(), "amra".into())]), 2 => UacEdit::Raw(b"{".to_vec()), 3 => UacEdit::Older, _ => UacEdit::Keep })
                 } else { SEv::Finish },
             };
             breadcrumb(&s, &e);
@@ -389,7 +444,7 @@ pub fn c01(tier: &str, seed: u64, meta: &str) -> Report {
         }
         if rep.samples.len() < 1 { rep.sample(json!({"method": if phonetic { "phonetic" } else { "fixed" }, "initial": s.initial, "first_events": s.history.iter().take(12).map(|e| e.json()).collect::<Vec<_>>()})); }
     });
-    rep.extra.insert("rule".into(), json!(format!("{} sessions of {} random in-contract events in both methods under random option sets (all 11 booleans), with and without database, Probhat and the synthetic layout (multi-code-point values): keys from the 111 published codes and from the layout/alphabet with arbitrary modifier bytes and a selection valid for the list shown before, backspace with and without ctrl, commit with an index inside the most recently returned list (also while idle), finish, restart, update_engine while idle with option changes and user auto-correct edits; one very long word per method for the time clause (slowest event recorded); a sweep over the bundled data rows (all 737 suffix keys behind two bases, all emoticons, a sixth - thorough: all - of the auto-correct keys and emoji names) typed key by key; every call under catch_unwind, every event also replayed in the extracted model (whose commit is partial: an index outside the stored list is a panic there)", sessions, events_per)));
+    rep.extra.insert("rule".into(), json!(format!("{} sessions of {} random in-contract events in both methods under random option sets (all 11 booleans), with and without database, Probhat and the synthetic layout (multi-code-point values): keys from the 111 published codes and from the layout/alphabet with arbitrary modifier bytes and a selection valid for the list shown before, backspace with and without ctrl, commit with an index inside the most recently returned list (also while idle), finish, restart, update_engine while idle with option changes and user auto-correct edits (rewritten, deleted, damaged, given an older time stamp); one very long word per method for the time clause (slowest event recorded); a sweep over the bundled data rows (all 737 suffix keys behind two bases, all emoticons, a sixth - thorough: all - of the auto-correct keys and emoji names) typed key by key; every call under catch_unwind, every event also replayed in the extracted model (whose commit is partial: an index outside the stored list is a panic there)", sessions, events_per)));
     rep
 }
 
